@@ -591,8 +591,16 @@ func chainCase(v *vec, sum *hx.Summary, seen map[string]bool) {
 		fc := pipe.New()
 		now := time.Now().Unix()
 		fc.OnWrite = func(c *pipe.Conn, p []byte) {
+			off := 0
 			for _, e := range send(p[2:], now) {
+				if v.L%2 == 0 { // TCP segmentation: a segment ends between the two length octets of every envelope ...
+					c.Bounds = append(c.Bounds, off+1)
+				}
+				off += 2 + len(e)
 				c.Feed(pipe.Frame(e))
+			}
+			if v.L%2 == 1 { // ... or every read returns a single octet
+				c.MaxRead = 1
 			}
 			c.EOF = true
 		}
@@ -976,7 +984,7 @@ func judge(tracePath, specPath string) {
 	var sum hx.Summary
 	spec := map[int]*specLine{}
 	hx.ReadNDJSON(specPath, func(i int, s *specLine) { spec[s.I] = s })
-	nacc, nundet := 0, 0
+	nacc, nundet, ntsigoff := 0, 0, 0
 	hx.ReadNDJSON(tracePath, func(i int, e *verifyEv) {
 		if e.Ev != "verify" && e.Ev != "env" {
 			return
@@ -987,8 +995,14 @@ func judge(tracePath, specPath string) {
 		}
 		sum.Evaluations++
 		real := e.Got == ""
-		if e.Via == "server" { // ResponseWriter.TsigStatus() is nil for an unsigned request too: verified = signed and nil
+		if e.Via == "server" || e.Via == "server-tsig-off" { // ResponseWriter.TsigStatus() is nil for an unsigned request too: verified = signed and nil
 			real = real && e.Signed
+		}
+		if e.Via == "server-tsig-off" { // a server without any TSIG configuration verifies nothing: outside the statement (AMBIG), counted only
+			if real {
+				ntsigoff++
+			}
+			return
 		}
 		// the specification's verdict, with the HMAC filled in by the standard library
 		expect, determined, why := false, true, ""
@@ -1055,6 +1069,9 @@ func judge(tracePath, specPath string) {
 	sum.Nontrivial = nacc
 	sum.Note("accepting_events", nacc)
 	sum.Note("verdict_not_asserted_events", nundet)
+	if ntsigoff > 0 {
+		sum.Note("signed_requests_with_nil_status_on_server_without_tsig_configuration", ntsigoff)
+	}
 	sum.Print()
 }
 
@@ -1093,7 +1110,10 @@ func reverify(in, out string) {
 
 // ---------------------------------------------------------------- record: the server side
 
-const srvKey = "srv.example."
+const (
+	srvKey   = "srv.example."
+	otherKey = "other.example."
+)
 
 // recordServer observes ResponseWriter.TsigStatus and response.WriteMsg.  Every transaction is validated from
 // scratch by Trace_Tsig: "q" starts a session on the MAC of THAT request, its first response must carry a MAC over
@@ -1105,7 +1125,6 @@ func recordServer(out string, n int) {
 	defer w.Close()
 	var sum hx.Summary
 	secret := b64(secrets[1])
-	tab := map[string]int{srvKey: 1}
 	algs := []string{dns.HmacSHA1, dns.HmacSHA224, dns.HmacSHA256, dns.HmacSHA384, dns.HmacSHA512}
 
 	type seen struct {
@@ -1139,11 +1158,9 @@ func recordServer(out string, n int) {
 			}
 			return m
 		}
+		// the number of messages written never depends on the verdict (the client knows how many to read);
+		// they are signed iff the request verified
 		switch {
-		case !verified:
-			m := reply(0)
-			m.Rcode = dns.RcodeRefused
-			rw.WriteMsg(m)
 		case req.Question[0].Qtype == dns.TypeAXFR:
 			ch := make(chan *dns.Envelope)
 			done := make(chan error, 1)
@@ -1164,25 +1181,56 @@ func recordServer(out string, n int) {
 		}
 	})
 
-	ln := pipe.NewListener()
-	tcp := &dns.Server{Listener: ln, Handler: handler, TsigSecret: map[string]string{srvKey: secret}}
-	pc := pipe.NewPacketConn()
-	udp := &dns.Server{PacketConn: pc, Handler: handler, TsigProvider: dns.VerifTsigSecretProvider(map[string]string{srvKey: secret})}
-	for _, srv := range []*dns.Server{tcp, udp} {
-		started := make(chan struct{})
-		srv.NotifyStartedFunc = func() { close(started) }
-		go srv.ActivateAndServe()
-		<-started
+	// server configurations: which keys the server has decides what TsigStatus must be (the specification's verdict
+	// on the request under that table).  assert = false: TSIG switched off altogether (no table, no provider) -- the
+	// library then verifies nothing and TsigStatus stays nil; the statement does not cover a server without TSIG
+	// configuration (AMBIG), the observation is recorded but not judged.
+	type config struct {
+		name   string
+		srv    *dns.Server
+		ln     *pipe.Listener
+		tab    map[string]int
+		assert bool
 	}
-	defer tcp.Shutdown()
-	defer udp.Shutdown()
+	both := map[string]string{srvKey: secret, otherKey: b64(secrets[0])}
+	configs := []*config{
+		{name: "table with the key", srv: &dns.Server{TsigSecret: map[string]string{srvKey: secret}}, tab: map[string]int{srvKey: 1}, assert: true},
+		{name: "empty table", srv: &dns.Server{TsigSecret: map[string]string{}}, tab: map[string]int{}, assert: true},
+		{name: "table without the key", srv: &dns.Server{TsigSecret: map[string]string{otherKey: b64(secrets[0])}}, tab: map[string]int{otherKey: 0}, assert: true},
+		{name: "provider", srv: &dns.Server{TsigProvider: dns.VerifTsigSecretProvider(both)}, tab: map[string]int{srvKey: 1, otherKey: 0}, assert: true},
+		{name: "provider over table", srv: &dns.Server{TsigProvider: dns.VerifTsigSecretProvider(map[string]string{srvKey: secret}),
+			TsigSecret: map[string]string{srvKey: b64(secrets[2]), otherKey: b64(secrets[0])}}, tab: map[string]int{srvKey: 1}, assert: true},
+		{name: "tsig off", srv: &dns.Server{}, tab: map[string]int{}, assert: false},
+	}
+	pc := pipe.NewPacketConn()
+	udp := &config{name: "udp provider", srv: &dns.Server{PacketConn: pc, TsigProvider: dns.VerifTsigSecretProvider(both)}, tab: map[string]int{srvKey: 1, otherKey: 0}, assert: true}
+	for _, c := range append(configs[:len(configs):len(configs)], udp) {
+		if c != udp {
+			c.ln = pipe.NewListener()
+			c.srv.Listener = c.ln
+		}
+		c.srv.Handler = handler
+		started := make(chan struct{})
+		c.srv.NotifyStartedFunc = func() { close(started) }
+		go c.srv.ActivateAndServe()
+		<-started
+		defer c.srv.Shutdown()
+	}
 
 	idx := 0
 	nextID := uint16(rnd.Intn(1000))
 	// one transaction: build the request, hand it to `send', read `want' responses with `recv'
-	transact := func(what string, send func([]byte) error, recv func() ([]byte, error), kinds []string) bool {
+	transact := func(cf *config, what string, send func([]byte) error, recv func() ([]byte, error), kinds []string) bool {
+		tab := cf.tab
+		what = cf.name + ", " + what
 		kind := kinds[rnd.Intn(len(kinds))]
 		variant := []string{"signed", "signed", "signed", "signed", "badsecret", "unsigned"}[rnd.Intn(6)]
+		key, si := srvKey, 1
+		if rnd.Intn(4) == 0 {
+			key, si = otherKey, 0
+		}
+		_, has := tab[key]
+		verifies := variant == "signed" && has // the specification's verdict on this request under the server's table
 		alg := algs[rnd.Intn(len(algs))]
 		q := new(dns.Msg)
 		switch kind {
@@ -1195,18 +1243,15 @@ func recordServer(out string, n int) {
 		}
 		nextID++
 		q.Id = nextID
-		want := 1
-		if variant == "signed" {
-			want = answers(q)
-		}
+		want := answers(q)
 		now := uint64(time.Now().Unix())
 		var qo []byte
 		var err error
 		if variant == "unsigned" {
 			qo, err = q.Pack()
 		} else {
-			q.SetTsig(srvKey, alg, 300, int64(now))
-			sec := secret
+			q.SetTsig(key, alg, 300, int64(now))
+			sec := b64(secrets[si])
 			if variant == "badsecret" {
 				sec = b64(secrets[2])
 			}
@@ -1230,18 +1275,22 @@ func recordServer(out string, n int) {
 		mu.Lock()
 		st, ok := status[q.Id]
 		mu.Unlock()
-		desc := fmt.Sprintf("%s: %s %s request (%s)", what, variant, kind, alg)
+		desc := fmt.Sprintf("%s: %s %s request (%s, %s)", what, variant, kind, key, alg)
 		if !ok {
 			sum.Mis("tsig/server:handler-not-called", desc, hx.FromBytes(qo))
 			return false
 		}
 		// (1) ResponseWriter.TsigStatus: verified = the request carries a TSIG and the status is nil
 		idx++
+		via := "server"
+		if !cf.assert {
+			via = "server-tsig-off"
+		}
 		w.Emit(verifyEv{Ev: "verify", I: idx, What: "status, " + desc, Octets: hx.FromBytes(qo), Reqmac: hx.B{}, Now: limbs(now),
-			Via: "server", Secrets: tab, Got: errText(st.err), Signed: st.signed})
+			Via: via, Secrets: tab, Got: errText(st.err), Signed: st.signed})
 		// (2) the responses: a session that starts on this request
 		w.Emit(verifyEv{Ev: "q", I: 0, What: desc, Octets: hx.FromBytes(qo), Reqmac: hx.B{}, Now: limbs(now), Secrets: tab})
-		if variant == "signed" {
+		if verifies && cf.assert {
 			for k, p := range msgs {
 				idx++
 				w.Emit(verifyEv{Ev: "env", I: idx, What: fmt.Sprintf("response %d of %d, %s", k+1, want, desc), Octets: hx.FromBytes(p), Reqmac: hx.B{},
@@ -1256,14 +1305,15 @@ func recordServer(out string, n int) {
 	}
 
 	for c := 0; c < n; c++ {
-		// a TCP connection with two to five transactions
-		conn, err := ln.Dial()
+		// a TCP connection with two to five transactions, to one of the server configurations
+		cf := configs[(c+int(hx.Seed()))%len(configs)]
+		conn, err := cf.ln.Dial()
 		if err != nil {
 			hx.Die("dial: %v", err)
 		}
 		for k, nreq := 0, 2+rnd.Intn(4); k < nreq; k++ {
 			conn.SetDeadline(time.Now().Add(20 * time.Second))
-			ok := transact(fmt.Sprintf("tcp, transaction %d of %d on its connection", k+1, nreq),
+			ok := transact(cf, fmt.Sprintf("tcp, transaction %d of %d on its connection", k+1, nreq),
 				func(p []byte) error { _, err := conn.Write(pipe.Frame(p)); return err },
 				func() ([]byte, error) { return pipe.ReadFrame(conn) },
 				[]string{"single", "multi", "axfr"})
@@ -1274,7 +1324,7 @@ func recordServer(out string, n int) {
 		conn.Close()
 		// datagrams: one transaction at a time, so that responses are attributed to their request
 		for k := 0; k < 2; k++ {
-			transact("udp",
+			transact(udp, "udp",
 				func(p []byte) error { pc.Deliver(p); return nil },
 				func() ([]byte, error) {
 					select {
